@@ -4,10 +4,16 @@
 (* NoPanicExit + "a diagnostic names the file") is the same for every vector; the expected        *)
 (* outcome CLASS below only says which side of ExitOk applies when the construct is rejected.     *)
 EXTENDS TLC, Json, Sequences
-CONSTANTS Constructs, Langs, Modes, Companions
+CONSTANTS Constructs, Langs, Modes, Companions, Packages
 VARIABLE v
 
-Init == v \in [construct : Constructs, lang : Langs, mode : Modes, companion : Companions]
+\* packages: "given" = the package options every backend wants are on the command line; "none" = no package option at all
+\* (Kotlin / Scala / Go without a package: the property lists "empty packages"); explored on the plain supported struct only
+Init == v \in { r \in [construct : Constructs, lang : Langs, mode : Modes, companion : Companions, packages : Packages] :
+                  r.packages = "none" => (r.construct \in {"ok_struct", "generic_tree"} /\ r.companion = "none") }
 Next == UNCHANGED v
-Emit == PrintT(<<"REPLAY", ToJson(v)>>)
+\* Go and Scala cannot generate without a package name: that is a configuration error. No source file is at fault, so the
+\* diagnostic has to name the missing option instead of a file (still: non-zero exit, no panic, no hang).
+Expect == IF v.packages = "none" /\ v.lang \in {"go", "scala"} THEN "config_error" ELSE "pipeline"
+Emit == PrintT(<<"REPLAY", ToJson([f \in DOMAIN v \cup {"expect"} |-> IF f = "expect" THEN Expect ELSE v[f]])>>)
 =============================================================================
